@@ -4,7 +4,7 @@
 WT=/tmp/seedsuite_wt
 export CARGO_TARGET_DIR=/verif/target/seedsuite CARGO_NET_OFFLINE=true
 [ -d $WT ] || git -C /repo worktree add -q --detach $WT HEAD || exit 2
-git -C $WT checkout -q --detach $(git -C /repo rev-parse HEAD)
+git -C $WT checkout -q -f --detach $(git -C /repo rev-parse HEAD) || exit 2
 for SD in "$@"; do
   SD=$(readlink -f $SD); S=$(basename $SD)
   git -C $WT checkout -q -- . ; git -C $WT clean -fdq -e target
